@@ -113,6 +113,12 @@ def ladder_strings():
         out.append(('sig', b'(' * k + b'a{s' * 3 + b'i' + b'}' * 3 + b')' * k))
         out.append(('sig', b'a(' * (k - 1) + b'ai' + b')' * (k - 1)))
         out.append(('sig', b'a{s' * (k - 1) + b'ai' + b'}' * (k - 1)))
+    # every kind of container open to (around) its own limit AT THE SAME TIME: 32 arrays + 32 dict entries + 32 structs
+    for k in (31, 32, 33):
+        for j in (31, 32, 33):
+            out.append(('sig', b'a{s' * k + b'(' * j + b'i' + b')' * j + b'}' * k))
+            out.append(('sig', b'(' * j + b'a{s' * k + b'i' + b'}' * k + b')' * j))
+            out.append(('sig1', b'a{s' * k + b'(' * j + b'i' + b')' * j + b'}' * k))
     return out
 
 
